@@ -4,7 +4,7 @@
 
 From Coq Require Import ZArith Reals List Bool Lra Lia.
 From Flocq Require Import Core.
-From Rubato.Model Require Import Num Reals Base Validate Async.
+From Rubato.Model Require Import Num Reals Base Validate Nearest Kernels Async Fft Resamplers.
 From Rubato.Gen Require Import FastGen.
 From Rubato.Proofs Require Import ShapeP ValidateP EngineP StepperR MalformedP.
 Import ListNotations.
@@ -124,15 +124,37 @@ Proof.
   - apply lt_IZR. eapply Rle_lt_trans; [apply Zfloor_lb|exact H2].
 Qed.
 
-Theorem fi_call_const_R (s : ST) wi wo m :
-  fi_wf s -> a_precheck A s wi wo m = Ok tt ->
+(* everything of the invariant except the bounds on the carried position *)
+Record fi_wf0 (s : ST) : Prop := {
+  w0_C : (1 <= Cz s)%Z;
+  w0_n : (0 <= nchz s)%Z;
+  w0_lenb : length (as_buf s) = Z.to_nat (nchz s);
+  w0_lenm : length (as_mask s) = Z.to_nat (nchz s);
+  w0_bufs : all_len (Cz s + 16) (as_buf s);
+  w0_r : 0 < ratio s;
+  w0_t : FastFixedIn_target_ratio (as_ctl s) = ratio s;
+}.
+
+Lemma fi_wf_wf0 (s : ST) : fi_wf s -> fi_wf0 s.
+Proof. intros [a b c0 d0 e f g h]. constructor; assumption. Qed.
+
+(** The general one-call theorem: the carried position need not come from a call at the same ratio.  It is enough that
+    (G1) the first window starts inside the buffer, (G2) the distance to the end of the loop produces at most the
+    advertised number of frames, (G3) the position is at most -4.  After the call the state satisfies the standard
+    invariant for the ratio that was used. *)
+Theorem fi_call_gen_R (s : ST) wi wo m :
+  fi_wf0 s ->
+  (reach_lo d - 16 <= Zfloor (li s + / ratio s))%Z ->
+  (IZR (Cz s - (8 + 1) - Zceil (/ ratio s)) - li s) * ratio s <= IZR (Cz s) * ratio s + 8 ->
+  li s <= -4 ->
+  a_precheck A s wi wo m = Ok tt ->
   exists (s' : ST) (n : Z) outs,
     pib A s wi wo m = Ok (s', (Cz s, n), outs) /\ fi_wf s' /\
     (0 <= n <= @fi_needed_len CR (as_ctl s))%Z /\
     li s' = li s + IZR n * / ratio s - IZR (Cz s) /\
     Cz s' = Cz s /\ nchz s' = nchz s /\ ratio s' = ratio s.
 Proof.
-  intros W Hpre. destruct W as [WC Wn Wlb Wlm Wb Wr Wt Wli].
+  intros W G1 G2 G3 Hpre. destruct W as [WC Wn Wlb Wlm Wb Wr Wt].
   unfold Cz, nchz, ratio, li in *.
   set (st := as_ctl s) in *.
   set (Cc := FastFixedIn_chunk_size st) in *.
@@ -193,8 +215,8 @@ Proof.
     2:{ apply le_IZR. rewrite Ztrunc_floor by lra. eapply Rle_trans; [|apply Rlt_le, Rlt_le_trans with (2 := Rle_refl _)]; [|].
         all: try (apply Rle_refl). generalize (Zfloor_ub (IZR Cc * r + 10)). lra. }
     rewrite Ztrunc_floor by lra. generalize (Zfloor_ub (IZR Cc * r + 10)). lra. }
-  assert (Hgap : IZR E - l0 <= IZR Cc).
-  { unfold E. rewrite !minus_IZR. destruct Wli as [Wl _]. fold t in Wl. change (IZR (8 + 1)) with 9. lra. }
+  assert (Hgap : (IZR E - l0) * r <= IZR Cc * r + 8).
+  { unfold E. fold t in G2. exact G2. }
   assert (Hceil : IZR (Zceil t) - t < 1 /\ t <= IZR (Zceil t)).
   { split; [generalize (Zceil_lb t); lra | apply Zceil_ub]. }
   assert (Houts : forall k o, nth_error wo k = Some o -> nth_error mask k = Some true -> (needed <= zlen o)%Z).
@@ -209,24 +231,20 @@ Proof.
       rewrite INR_IZR_INZ, Z2Nat.id by lia. rewrite <- (plus_IZR needed 2). apply IZR_le. lia. }
   destruct (positions_in_terminates (IZR E) t Ht fuel t 0 l0) as (ps & last & Eps).
   { intros k _. lra. }
-  { assert (IZR Cc < INR fuel * t).
-    { assert (IZR Cc * r < INR fuel) by lra.
-      assert (IZR Cc * r * t < INR fuel * t) by (apply Rmult_lt_compat_r; lra).
-      replace (IZR Cc * r * t) with (IZR Cc * (t * r)) in H0 by ring. rewrite Htr in H0. lra. }
-    lra. }
+  { assert (H0 : (IZR E - l0) * r < INR fuel) by lra.
+    assert (H1 : (IZR E - l0) * r * t < INR fuel * t) by (apply Rmult_lt_compat_r; lra).
+    replace ((IZR E - l0) * r * t) with ((IZR E - l0) * (t * r)) in H1 by ring. rewrite Htr in H1. lra. }
   rewrite Eps.
   destruct (positions_in_spec (IZR E) fuel t 0 l0 ps last Eps) as (Hps & Hlast & Hlt & Hge & Hnf).
   set (n := length ps) in *. assert (En : n = length ps) by reflexivity. clearbody n.
   assert (Hpos : forall k, pos_at l0 t 0 k = l0 + INR k * t) by (intros k; unfold pos_at; lra).
   (* the number of frames stays below the advertised one *)
-  assert (Hn : INR n < IZR Cc * r + 1).
+  assert (Hn : INR n < IZR Cc * r + 9).
   { destruct n as [|n']; [cbn; assert (0 <= IZR Cc * r) by (apply Rmult_le_pos; [apply IZR_le; lia|lra]); lra|].
     specialize (Hlt n' ltac:(lia)). rewrite Hpos in Hlt. rewrite S_INR.
-    assert (INR n' * t < IZR Cc) by lra.
-    assert (INR n' < IZR Cc * r).
-    { assert (INR n' * t * r < IZR Cc * r) by (apply Rmult_lt_compat_r; lra).
-      replace (INR n' * t * r) with (INR n' * (t * r)) in H0 by ring. rewrite Htr in H0. lra. }
-    lra. }
+    assert (H0 : INR n' * t < IZR E - l0) by lra.
+    assert (H1 : INR n' * t * r < (IZR E - l0) * r) by (apply Rmult_lt_compat_r; lra).
+    replace (INR n' * t * r) with (INR n' * (t * r)) in H1 by ring. rewrite Htr in H1. lra. }
   assert (Hn' : (Z.of_nat n <= needed)%Z).
   { apply le_IZR. rewrite <- INR_IZR_INZ. lra. }
   (* every instant is sampled inside the buffer *)
@@ -237,11 +255,11 @@ Proof.
     { destruct k as [|k']; [lia|]. specialize (Hlt k' ltac:(lia)). rewrite Hpos in Hlt. rewrite S_INR. lra. }
     assert (K0 : l0 + t <= l0 + INR k * t).
     { assert (1 <= INR k) by (change 1 with (INR 1); apply le_INR; lia). nra. }
-    assert (F : (-10 <= Zfloor (l0 + INR k * t) < Cc - 9)%Z).
-    { apply Zfloor_bounds.
-      - destruct Wli as [Wl _]. fold t in Wl. change (IZR (-10)) with (-10). lra.
-      - unfold E in K1. rewrite !minus_IZR in K1. change (IZR (8 + 1)) with 9 in K1. rewrite minus_IZR. change (IZR 9) with 9. lra. }
-    apply fi_sample_ok_R; rewrite ?Hb; destruct d; cbn [reach_lo win_width]; lia. }
+    assert (F : (reach_lo d - 16 <= Zfloor (l0 + INR k * t) < Cc - 9)%Z).
+    { split; [eapply Z.le_trans; [exact G1|]; fold t; apply Zfloor_le; exact K0|].
+      apply lt_IZR. eapply Rle_lt_trans; [apply Zfloor_lb|].
+      unfold E in K1. rewrite !minus_IZR in K1. change (IZR (8 + 1)) with 9 in K1. rewrite minus_IZR. change (IZR 9) with 9. lra. }
+    apply fi_sample_ok_R; rewrite ?Hb; revert F; destruct d; cbn [reach_lo win_width]; intros F; lia. }
   destruct (outputs_all_ok A st (Cc + 16) ps Hsamp bufs2 wo mask L2) as (outs & Eo & No & Po).
   { intros k o Hk Hm. specialize (Houts k o Hk Hm). unfold zlen in Houts.
     change (@length (@cnum CR) ps) with (@length R ps). rewrite <- En. lia. }
@@ -252,7 +270,7 @@ Proof.
   { unfold E in Hge. rewrite !minus_IZR in Hge. change (IZR (8 + 1)) with 9 in Hge. lra. }
   assert (Hi : last - IZR Cc <= -4).
   { rewrite Elast. destruct n as [|n'].
-    + cbn [INR]. destruct Wli as [_ Wu]. assert (1 <= IZR Cc) by (apply IZR_le; lia). lra.
+    + cbn [INR]. assert (1 <= IZR Cc) by (apply IZR_le; lia). lra.
     + specialize (Hlt n' ltac:(lia)). rewrite Hpos in Hlt. rewrite S_INR. unfold E in Hlt. rewrite !minus_IZR in Hlt.
       change (IZR (8 + 1)) with 9 in Hlt. lra. }
   unfold Cz, nchz, ratio, li.
@@ -268,6 +286,27 @@ Proof.
   - unfold zlen in Vm. lia.
   - split; assumption.
   - repeat split; try lia; try reflexivity. rewrite Elast, <- INR_IZR_INZ. lra.
+Qed.
+
+(** the constant-ratio case: the standard invariant implies the three conditions *)
+Theorem fi_call_const_R (s : ST) wi wo m :
+  fi_wf s -> a_precheck A s wi wo m = Ok tt ->
+  exists (s' : ST) (n : Z) outs,
+    pib A s wi wo m = Ok (s', (Cz s, n), outs) /\ fi_wf s' /\
+    (0 <= n <= @fi_needed_len CR (as_ctl s))%Z /\
+    li s' = li s + IZR n * / ratio s - IZR (Cz s) /\
+    Cz s' = Cz s /\ nchz s' = nchz s /\ ratio s' = ratio s.
+Proof.
+  intros W Hpre. pose proof (fi_wf_wf0 s W) as W0. destruct W as [WC Wn Wlb Wlm Wb Wr Wt Wli].
+  assert (Ht : 0 < / ratio s) by (apply Rinv_0_lt_compat; exact Wr).
+  assert (Hceil : IZR (Zceil (/ ratio s)) - / ratio s < 1 /\ / ratio s <= IZR (Zceil (/ ratio s))).
+  { split; [generalize (Zceil_lb (/ ratio s)); lra | apply Zceil_ub]. }
+  apply (fi_call_gen_R s wi wo m W0); try exact Hpre.
+  - apply Z.le_trans with (-10)%Z; [destruct d; cbn [reach_lo]; lia|]. apply Zfloor_lub. change (IZR (-10)) with (-10). lra.
+  - rewrite !minus_IZR. change (IZR (8 + 1)) with 9.
+    assert (IZR (Cz s) - 9 - IZR (Zceil (/ ratio s)) - li s <= IZR (Cz s)) by lra.
+    assert ((IZR (Cz s) - 9 - IZR (Zceil (/ ratio s)) - li s) * ratio s <= IZR (Cz s) * ratio s) by (apply Rmult_le_compat_r; lra). lra.
+  - lra.
 Qed.
 
 End Call.
@@ -334,3 +373,156 @@ Proof.
 Qed.
 
 End History.
+
+(** * Histories with non-ramped ratio changes between the calls
+
+    [set_resample_ratio(r2, false)] replaces the step at once.  The position carried over from the last call was left
+    where the OLD step put it, so the next call is safe only when the new step is compatible with it.  The two
+    conditions below are exactly the complements of the two recorded defect classes (preroll-underflow and
+    count-overrun in known_findings.json): every accepted step outside those classes is proved safe. *)
+Section Steps.
+Variable d : degree.
+Notation A := (@fi_arch CR SR d).
+Notation ST := (@astate CR SR FI).
+
+(* rc: the ratio in force during the last call; r2: the ratio for the next one *)
+Definition step_compatible (rc r2 : R) : Prop :=
+  0 < r2 /\
+  IZR (Zceil (/ rc)) - / r2 <= IZR (6 - reach_lo d) /\              (* first window starts inside the 2*L pre-roll *)
+  (IZR (Zceil (/ rc)) - IZR (Zceil (/ r2))) * r2 <= 8.              (* at most output_frames_next() frames are produced *)
+
+Lemma step_compatible_refl r : 0 < r -> step_compatible r r.
+Proof.
+  intros Hr. assert (Ht : 0 < / r) by (apply Rinv_0_lt_compat; exact Hr).
+  split; [exact Hr|]. split.
+  - assert (IZR (Zceil (/ r)) - / r < 1) by (generalize (Zceil_lb (/ r)); lra).
+    assert (3 <= IZR (6 - reach_lo d)) by (apply IZR_le; destruct d; cbn [reach_lo]; lia). lra.
+  - rewrite Rminus_diag_eq by reflexivity. lra.
+Qed.
+
+(* the invariant between operations: the standard one, except that the carried position is bounded by the ratio [rc]
+   of the last call, and the current ratio is compatible with it *)
+Record fi_wfs (rc : R) (s : ST) : Prop := {
+  ws_0 : fi_wf0 s;
+  ws_li : - 9 - IZR (Zceil (/ rc)) <= li s <= -4;
+  ws_c : step_compatible rc (ratio s);
+}.
+
+Lemma fi_wf_wfs (s : ST) : fi_wf s -> fi_wfs (ratio s) s.
+Proof.
+  intros W. pose proof (fi_wf_wf0 s W) as W0. destruct W as [_ _ _ _ _ Wr _ Wl].
+  constructor; [exact W0 | exact Wl | apply step_compatible_refl; exact Wr].
+Qed.
+
+(** one call from the relaxed invariant *)
+Theorem fi_call_step_R rc (s : ST) wi wo m :
+  fi_wfs rc s -> a_precheck A s wi wo m = Ok tt ->
+  exists (s' : ST) (n : Z) outs,
+    pib A s wi wo m = Ok (s', (Cz s, n), outs) /\ fi_wf s' /\
+    (0 <= n <= @fi_needed_len CR (as_ctl s))%Z /\
+    li s' = li s + IZR n * / ratio s - IZR (Cz s) /\
+    Cz s' = Cz s /\ nchz s' = nchz s /\ ratio s' = ratio s.
+Proof.
+  intros [W0 Wl (Hr & C1 & C2)] Hpre.
+  assert (Ht : 0 < / ratio s) by (apply Rinv_0_lt_compat; exact Hr).
+  apply (fi_call_gen_R d s wi wo m W0); try exact Hpre.
+  - apply Zfloor_lub. rewrite minus_IZR. rewrite minus_IZR in C1. change (IZR 16) with 16. change (IZR 6) with 6 in C1. lra.
+  - rewrite !minus_IZR. change (IZR (8 + 1)) with 9.
+    assert (H0 : IZR (Cz s) - 9 - IZR (Zceil (/ ratio s)) - li s <= IZR (Cz s) + (IZR (Zceil (/ rc)) - IZR (Zceil (/ ratio s)))) by lra.
+    assert (H1 : (IZR (Cz s) - 9 - IZR (Zceil (/ ratio s)) - li s) * ratio s <=
+                 (IZR (Cz s) + (IZR (Zceil (/ rc)) - IZR (Zceil (/ ratio s)))) * ratio s) by (apply Rmult_le_compat_r; lra).
+    lra.
+  - lra.
+Qed.
+
+(** an accepted non-ramped step keeps the relaxed invariant when the new ratio is compatible *)
+Lemma fi_set_ratio_wfs rc (s s1 : ST) r2 :
+  fi_wfs rc s -> step_compatible rc r2 -> @fi_set_ratio CR SR s r2 false = (s1, Ok tt) ->
+  fi_wfs rc s1 /\ ratio s1 = r2 /\ Cz s1 = Cz s /\ nchz s1 = nchz s /\ li s1 = li s.
+Proof.
+  intros [[WC Wn Wlb Wlm Wb Wr Wt] Wl Wc] Hc E. unfold fi_set_ratio in E.
+  destruct (fi_set_ratio_accept (as_ctl s) r2); [|discriminate E].
+  injection E as <-. destruct Hc as (H1 & H2 & H3).
+  unfold Cz, nchz, ratio, li in *. destruct s as [st bufs mask]. destruct st.
+  cbn in *. split; [|repeat split; reflexivity].
+  constructor; [constructor; cbn; assumption || reflexivity | exact Wl | cbn; repeat split; assumption].
+Qed.
+
+Inductive fi_op :=
+| FCall (wi wo : list (list R)) (m : option (list bool))
+| FStep (r2 : R).
+
+(* the run records, for every call, (frames consumed, frames produced, output_frames_next() before the call) *)
+Fixpoint fi_run_ops (s : ST) (ops : list fi_op) : res (ST * list (Z * Z * Z)) :=
+  match ops with
+  | [] => Ok (s, [])
+  | FCall wi wo m :: rest =>
+      do _ <- a_precheck A s wi wo m;
+      do x <- pib A s wi wo m;
+      let '(s', (a, b), _) := x in
+      do y <- fi_run_ops s' rest;
+      let '(s'', log) := y in
+      Ok (s'', (a, b, @fi_needed_len CR (as_ctl s)) :: log)
+  | FStep r2 :: rest =>
+      match @fi_set_ratio CR SR s r2 false with
+      | (s1, Ok tt) => fi_run_ops s1 rest
+      | (_, Err e) => Err e                   (* outside [original/max, original*max]: rejected, see C12 *)
+      | (_, Panic e) => Panic e | (_, UB e) => UB e | (_, Diverge) => Diverge
+      end
+  end.
+
+(* every step is compatible with the ratio [rc] of the last call before it; [r] is the current ratio *)
+Fixpoint steps_compatible (rc r : R) (ops : list fi_op) : Prop :=
+  match ops with
+  | [] => True
+  | FCall _ _ _ :: rest => steps_compatible r r rest
+  | FStep r2 :: rest => step_compatible rc r2 /\ steps_compatible rc r2 rest
+  end.
+
+Definition call_ok (C : Z) (e : Z * Z * Z) : Prop :=
+  let '(a, b, adv) := e in a = C /\ (0 <= b <= adv)%Z.
+
+(** Every history of well-formed calls and accepted, compatible, non-ramped ratio changes runs without a panic, an
+    out-of-range access or non-termination; every call consumes chunk_size frames and produces at most
+    output_frames_next() frames. *)
+Theorem fi_history_steps_R : forall ops rc (s : ST), fi_wfs rc s -> steps_compatible rc (ratio s) ops ->
+  match fi_run_ops s ops with
+  | Ok (s', log) => (exists rc', fi_wfs rc' s') /\ Cz s' = Cz s /\ Forall (call_ok (Cz s)) log
+  | Err _ => True
+  | Panic _ | UB _ | Diverge => False
+  end.
+Proof.
+  induction ops as [|[wi wo m|r2] rest IH]; intros rc s W Hc; cbn [fi_run_ops].
+  - split; [exists rc; exact W|]. split; [reflexivity|constructor].
+  - cbn [steps_compatible] in Hc.
+    destruct (a_precheck A s wi wo m) as [[]| | | |] eqn:Ep; cbn [bind]; try exact I.
+    + destruct (fi_call_step_R rc s wi wo m W Ep) as (s' & n & outs & E & W' & Hn & Hli & HC & Hnch & Hr).
+      rewrite E. cbn [bind]. apply fi_wf_wfs in W'. rewrite <- Hr in Hc.
+      specialize (IH (ratio s') s' W' Hc).
+      destruct (fi_run_ops s' rest) as [[s'' log]| | | |]; cbn [bind]; try exact IH.
+      destruct IH as (W'' & HC'' & Hlog). split; [exact W''|]. split; [congruence|].
+      constructor; [cbn; split; [reflexivity|exact Hn] | rewrite <- HC; exact Hlog].
+    + destruct (a_precheck_total A s wi wo m) as [H|[e H]]; rewrite H in Ep; discriminate.
+    + destruct (a_precheck_total A s wi wo m) as [H|[e H]]; rewrite H in Ep; discriminate.
+    + destruct (a_precheck_total A s wi wo m) as [H|[e H]]; rewrite H in Ep; discriminate.
+  - cbn [steps_compatible] in Hc. destruct Hc as [Hc1 Hc2].
+    destruct (@fi_set_ratio CR SR s r2 false) as [s1 o] eqn:Es.
+    assert (Ho : o = Ok tt \/ exists e, o = Err e).
+    { unfold fi_set_ratio in Es. destruct (fi_set_ratio_accept (as_ctl s) r2); injection Es as <- <-; [left; reflexivity | right; eexists; reflexivity]. }
+    destruct Ho as [-> | [e ->]]; [|exact I].
+    destruct (fi_set_ratio_wfs rc s s1 r2 W Hc1 Es) as (W1 & Hr1 & HC1 & _ & _).
+    rewrite <- Hr1 in Hc2. specialize (IH rc s1 W1 Hc2).
+    destruct (fi_run_ops s1 rest) as [[s'' log]| | | |]; try exact IH.
+    destruct IH as (W'' & HC'' & Hlog). split; [exact W''|]. split; [congruence|]. rewrite <- HC1. exact Hlog.
+Qed.
+
+End Steps.
+
+(* the step condition is met by genuine ratio changes in both directions *)
+Lemma step_up_example : step_compatible Septic 1 2.
+Proof. unfold step_compatible. replace (/ 1) with 1 by field. rewrite Zceil_IZR.
+  assert (0 <= IZR (Zceil (/ 2))) by (generalize (Zceil_ub (/ 2)); lra).
+  cbn [reach_lo]. change (IZR (6 - 3)) with 3. repeat split; lra. Qed.
+Lemma step_down_example : step_compatible Septic 1 (/ 2).
+Proof. unfold step_compatible. replace (/ 1) with 1 by field. replace (/ / 2) with 2 by field.
+  rewrite !Zceil_IZR. cbn [reach_lo]. change (IZR (6 - 3)) with 3. repeat split; lra. Qed.
